@@ -36,10 +36,7 @@ func vBytesEq(a, b []byte) bool { return string(a) == string(b) }
 // the output is the same under every map iteration order, and keys come out ascending
 func H_C16_order() {
 	vResetDecOpts()
-	ne, na := 2, 2
-	if vTier() == 1 {
-		ne, na = 3, 2
-	}
+	ne, na := vP("elems", 2, 3), vP("attrs", 2, 2)
 	m := vNondetOrderMap(ne, na)
 	form := vChoose(4)
 	enc := func() ([]byte, error) {
